@@ -728,9 +728,44 @@ def rule_rd_replay(cx, rep, port):
         rep.decide(ok2, 'pre-read', pre[0] if pre else init, 'first record is pre-read with the replay flag off, then the flag becomes `not has_header`', 'the constructor does not pre-read the first record with the replay flag off and then set it to `not has_header`')
     else:
         fd = p.func('rbql_csv', 'CSVRecordIterator.try_resolve_next_record')
-        ifs = [n for n in walk_no_nested(fd) if isinstance(n, ast.If) and 'self.first_record_should_be_emitted' in {dotted(x) for x in ast.walk(n.test)}]
-        ok = len(ifs) == 1 and any(isinstance(s, ast.Assign) and dotted(s.targets[0]) == 'self.first_record_should_be_emitted' and is_false(s.value) for s in ifs[0].body) and any(isinstance(s, ast.Assign) and dotted(s.value) == 'self.first_record' for s in ifs[0].body) and 'self.header_preread_complete' in {dotted(x) for x in ast.walk(ifs[0].test)}
-        rep.decide(ok, 'replay', ifs[0] if ifs else fd, 'after the pre-read, the first record is replayed once iff the flag is set', 'the pre-read first record is not replayed exactly once iff first_record_should_be_emitted')
+        # for each of the four states of (replay flag, pre-read complete): the record handed out is the pre-read one with the flag
+        # cleared exactly when both hold, otherwise the next queued record and the flag untouched (path summaries)
+        from .. import pathsem
+        ps = pathsem.paths(fd)
+        if ps is None:
+            rep.undecided('replay', fd, 'try_resolve_next_record is not summarisable as paths')
+        else:
+            verdict, why, n_first, n_queue = True, '', 0, 0
+            for F in (True, False):
+                for H in (True, False):
+                    def leaf(e, F=F, H=H):
+                        d = dotted(e)
+                        if d == 'self.first_record_should_be_emitted':
+                            return F
+                        if d == 'self.header_preread_complete':
+                            return H
+                        return None
+                    for q in ps:
+                        if not pathsem.consistent(q, leaf):
+                            continue
+                        rec = [v for k, v in q.env.items() if dotted(v) == 'self.first_record' or (isinstance(v, ast.Call) and (call_name(v) or '').endswith('.dequeue'))]
+                        if not rec:
+                            continue       # no record chosen on this path (nobody is waiting)
+                        took_first = any(dotted(v) == 'self.first_record' for v in rec)
+                        took_queue = any(isinstance(v, ast.Call) for v in rec)
+                        cleared = any(dotted(t_) == 'self.first_record_should_be_emitted' and is_false(v) for t_, v in q.stores)
+                        if F and H:
+                            n_first += 1
+                            if not took_first or took_queue or not cleared:
+                                verdict, why = False, 'with the replay flag set after the pre-read, the pre-read record is not handed out with the flag cleared'
+                        else:
+                            n_queue += 1
+                            if took_first or cleared:
+                                verdict, why = False, 'the pre-read record is replayed (or the flag cleared) although the flag is {} / the pre-read is {}'.format('set' if F else 'not set', 'complete' if H else 'not complete')
+            if verdict and not (n_first and n_queue):
+                rep.undecided('replay', fd, 'paths choosing the record not recognised')
+            else:
+                rep.decide(verdict, 'replay', fd, 'after the pre-read, the first record is replayed once iff the flag is set', 'the pre-read first record is not replayed exactly once iff first_record_should_be_emitted: ' + why)
         pr = p.func('rbql_csv', 'CSVRecordIterator.preread_first_record')
         cp = [n for n in walk_no_nested(pr) if isinstance(n, ast.Assign) and dotted(n.targets[0]) == 'self.first_record']
         rep.decide(len(cp) >= 1, 'pre-read', pr, 'first record is pre-read once', 'first record pre-read not found')
@@ -779,6 +814,11 @@ for i in range(first_line_index, len(lines)):
         okloop = is_name(a, 'first_line_index') and node_text(b) == 'len({})'.format(lines) and (not pop or loops[0].lineno > pop[0].lineno)
         calls = [c for c in ast.walk(loops[0]) if isinstance(c, ast.Call) and call_name(c) == 'self.process_line']
         okloop = okloop and len(calls) == 1 and node_text(calls[0].args[0]) == '{}[{}]'.format(lines, loops[0].target.id)
+    if len(loops) == 1 and not okloop and isinstance(loops[0].target, ast.Name):
+        it_ = loops[0].iter
+        tail = (isinstance(it_, ast.Subscript) and dotted(it_.value) == lines and isinstance(it_.slice, ast.Slice) and is_name(it_.slice.lower, 'first_line_index') and it_.slice.upper is None and it_.slice.step is None) or (isinstance(it_, ast.Call) and isinstance(it_.func, ast.Attribute) and it_.func.attr == 'slice' and dotted(it_.func.value) == lines and len(it_.args) == 1 and is_name(it_.args[0], 'first_line_index'))
+        calls = [c for c in ast.walk(loops[0]) if isinstance(c, ast.Call) and call_name(c) == 'self.process_line']
+        okloop = tail and len(calls) == 1 and is_name(calls[0].args[0], loops[0].target.id) and (not pop or loops[0].lineno > pop[0].lineno)
     rep.decide(okloop, 'complete lines', loops[0] if loops else fd, 'every complete line is processed once, in order', 'complete lines of the chunk are not all processed once, in order, after the carry-over was removed')
     # CR/LF across chunks
     fi = [n for n in body if isinstance(n, ast.Assign) and is_name(n.targets[0], 'first_line_index')]
